@@ -214,7 +214,10 @@ class Engine(CoreMixin, ExprMixin, CallMixin, StmtMixin, BuiltinMixin):
         rep.frame_log = list(self.frame_log)
         rep.called = sorted(self.called_contracts)
         rep.trivial = self.trivial
-        if rep.out_of_subset is None:
+        rep.ctx = (list(self.decls), list(self.globals_assumed), list(self.escape_facts))
+        rep.pending = list(self.obls) if rep.out_of_subset is None else []
+        rep.input_terms = dict(self.input_terms)
+        if rep.out_of_subset is None and not getattr(self, "defer", False):
             self.discharge(rep, timeout, keep_dir, pool)
         rep.wall = time.time() - t0
         return rep
@@ -267,10 +270,11 @@ class Engine(CoreMixin, ExprMixin, CallMixin, StmtMixin, BuiltinMixin):
         self.obls.append(o)
 
     # ------------------------------------------------------------------ SMT text
-    def vc_text(self, o, with_check=True):
+    def vc_text(self, o, with_check=True, rep=None):
         parts = [smt.PRELUDE.replace(";;CLASS_TABLE;;", self.ctab.smt()), smt.speclib()]
-        parts.extend(self.decls)
-        for f in self.globals_assumed + self.escape_facts:
+        decls, glob, esc = rep.ctx if rep is not None else (self.decls, self.globals_assumed, self.escape_facts)
+        parts.extend(decls)
+        for f in glob + esc:
             parts.append(f"(assert {f})")
         for p in o.pc:
             parts.append(f"(assert {p})")
@@ -282,7 +286,7 @@ class Engine(CoreMixin, ExprMixin, CallMixin, StmtMixin, BuiltinMixin):
 
     def discharge(self, rep, timeout, keep_dir, pool):
         def run(o):
-            text = self.vc_text(o)
+            text = self.vc_text(o, rep=rep)
             if o.expect == "sat":
                 r = smt.solve_text(text, timeout=2.0, keep_dir=keep_dir, name=o.name,
                                    order=["z3-5.1.0"], quick_first=False)
@@ -293,10 +297,30 @@ class Engine(CoreMixin, ExprMixin, CallMixin, StmtMixin, BuiltinMixin):
         own = pool is None
         pool = pool or ThreadPoolExecutor(int(os.environ.get("PYVC_JOBS", "12")))
         try:
-            done = list(pool.map(run, self.obls))
+            done = list(pool.map(run, rep.pending))
         finally:
             if own:
                 pool.shutdown()
         for o in done:
             (rep.covers if o.kind == "cover" else rep.obligations).append(o)
         rep.engine = self
+
+    def discharge_many(self, reps, timeout, keep_dir=None, jobs=14):
+        """Discharge the obligations of many functions in one pool (covers last)."""
+        work = []
+        for rep in reps:
+            for o in rep.pending:
+                work.append((rep, o))
+        work.sort(key=lambda ro: ro[1].kind == "cover")
+
+        def run(ro):
+            rep, o = ro
+            text = self.vc_text(o, rep=rep)
+            if o.expect == "sat":
+                o.result = smt.solve_text(text, timeout=2.0, keep_dir=keep_dir, name=o.name, order=["z3-5.1.0"], quick_first=False)
+            else:
+                o.result = smt.solve_text(text, timeout=timeout, keep_dir=keep_dir, name=o.name)
+            return ro
+        with ThreadPoolExecutor(jobs) as pool:
+            for rep, o in pool.map(run, work):
+                (rep.covers if o.kind == "cover" else rep.obligations).append(o)
